@@ -20,6 +20,8 @@ pub mod c12;
 pub mod c13;
 #[cfg(feature = "full")]
 pub mod c14;
+#[cfg(feature = "full")]
+pub mod c15;
 pub mod c16;
 pub mod c17;
 #[cfg(feature = "full")]
@@ -158,6 +160,15 @@ pub fn all() -> Vec<Spec> {
             level: "fault_enumeration",
             rule: "fault scripts = (lazy|eager) x connect outcomes in {fail, ok}^<=3 x operations in {call, kill}^<=4 enumerated (all 1800 in thorough, a seeded sample of 300 in quick) plus sampled longer scripts (<=8 outcomes, <=10 operations incl. back-to-back calls); a scripted connector consumes one outcome per invocation and hands the peer half of a fragmenting in-memory pipe to a real tonic server; `kill` resets the live pipe (wakes parked I/O); a generated-client call is issued at each quiescent point of a paused clock. Oracle = reference model driven by the connector invocations observed during each call (live => Ok with no attempt; attempt ok => Ok; attempts all failed => UNAVAILABLE; no attempt while disconnected => violation; eager initial failure => Err after exactly one invocation; every call resolves within 60 virtual seconds; Ok => handler ran once). Fingerprint = lazy/eager + sequence of model transitions. Non-trivial = contains a kill, a failed attempt or an eager initial failure.",
             exhaustive: false,
+            assumptions: COMMON_ASSUMPTIONS,
+        },
+        #[cfg(feature = "full")]
+        Spec {
+            id: "C15",
+            run: c15::run,
+            level: "fault_enumeration",
+            rule: "the full configuration matrix is enumerated on every run: client roots {right CA, other CA, none} x domain {configured matching, configured non-matching, from URI matching, from URI non-matching} x server ALPN {h2 (tonic's own Server::tls_config), none, http/1.1 (harness rustls acceptor feeding tonic's serve_with_incoming)} x assume_http2 x server client-auth {none, required, optional} x client identity {none, valid, issued by another CA} x (tonic server only) ignore_client_order = 864 real rustls handshakes over the in-memory pipe (thorough: x3 with fragmenting pipes), plus https-URI-without-TLS-config cases. Oracle = decision table from the property text (success iff chain AND name AND (h2 negotiated OR assume_http2) AND client-auth rule); on expected failure the handler counter stays 0; the client's first bytes are a TLS handshake record and the plaintext preface never appears; Request::peer_certs() is Some(1) exactly when a client chain was verified. Fingerprint = the matrix cell + repetition. Non-trivial = every cell.",
+            exhaustive: true,
             assumptions: COMMON_ASSUMPTIONS,
         },
         Spec {
